@@ -684,6 +684,68 @@ def _len_aliases(body):
     return cls
 
 
+def r03_25(run, model):
+    run.rule("R03.25", "a position found by searching one list indexes that list only: where the compiler obtains an index from "
+                       "`.position(..)` / `.rposition(..)` on a list, every `.get(i)` / `[i]` with that index is applied to the same list - "
+                       "the written order of a struct pattern or literal and the declared order of the definition are two different lists, and "
+                       "the parameter types follow the declaration")
+    n_src, n_use = 0, 0
+    for rel in model.src_files():
+        if not rel.startswith("crates/compiler/src"):
+            continue
+
+        def root(e):
+            while True:
+                if e["k"] == "MethodCall":
+                    e = e["recv"]
+                elif e["k"] in ("Ref", "Paren", "Unary"):
+                    e = e["expr"]
+                elif e["k"] == "Index":
+                    e = e.get("base") or e.get("expr")
+                elif e["k"] == "Field":
+                    return S.norm_ws(run.facts.text(rel, e["sp"]))
+                else:
+                    break
+            return e["segs"][-1] if e["k"] == "Path" else None
+        for f in model.fns(rel):
+            if f.body is None:
+                continue
+            idx = {}
+            for x in S.walk(f.body):
+                init = pat = None
+                if x["k"] == "Local" and x.get("init") is not None:
+                    init, pat = x["init"], x["pat"]
+                elif x["k"] == "Let":
+                    init, pat = x["expr"], x["pat"]
+                if x["k"] == "MethodCall" and x["method"] == "enumerate":
+                    n_src += 1
+                if init is None:
+                    continue
+                pc = [c for c in S.walk(init) if c["k"] == "MethodCall" and c["method"] in ("position", "rposition")]
+                if len(pc) != 1:
+                    continue
+                n_src += 1
+                for b in S.pat_bindings(pat):
+                    idx[b] = root(pc[0]["recv"])
+            for x in S.walk(f.body):
+                v = base = None
+                if x["k"] == "MethodCall" and x["method"] in ("get", "get_mut", "remove", "swap_remove", "insert") and x["args"] and \
+                        x["args"][0]["k"] == "Path" and len(x["args"][0]["segs"]) == 1 and x["args"][0]["segs"][0] in idx:
+                    v, base = x["args"][0]["segs"][0], root(x["recv"])
+                elif x["k"] == "Index" and x["index"]["k"] == "Path" and len(x["index"]["segs"]) == 1 and x["index"]["segs"][0] in idx:
+                    v, base = x["index"]["segs"][0], root(x.get("base") or x.get("expr"))
+                if v is None:
+                    continue
+                n_use += 1
+                ok = base == idx[v]
+                run.ob("R03.25", f"{f.name}|index found in `{idx[v]}` is applied to `{base}`", ok, site(rel, x["sp"]),
+                       f"`{v}` comes from a search of `{idx[v]}` and indexes `{base}`",
+                       witness="struct Acct { id: int32, owner: string }: `match a { Acct { owner: o, id: n } => n + 1 }` checks `o` against int32 and `n` "
+                               "against string - `n + 1` on a string is accepted")
+    # expected count zero today; the control shows that positional sources are recognised at all in this build
+    run.ob("R03.25", "control|positional index sources are recognised (enumerate / position)", n_src >= 20, None, f"{n_src} enumerate()/position() sources seen, {n_use} searched indices in use")
+
+
 def r03_13(run, model):
     run.rule("R03.13", "two lists are only zipped after their lengths were compared: every `.zip(` in the typer that pairs expressions/patterns/"
                        "parameters with types is covered by an arity test on the same operands (same condition, an earlier rejecting test, "
@@ -1259,6 +1321,9 @@ def run(run, model):
     run.try_rule(c17.r17_9, model)
     run.try_rule(c07.r07_4, model)
     run.try_rule(c07.r07_2, model, None, "C03")
+    # a field read through a sequentially instantiated definition gets another parameter's type: the typer accepts `p.fst + 1` on a string
+    run.try_rule(c07.r07_17, model)
+    run.try_rule(r03_25, model)
     from rules import c08
     run.try_rule(c08.r08_1, model)
     run.try_rule(c08.r08_2, model)
